@@ -24,7 +24,7 @@ theorem ofPy_toPy : ∀ (v : V) (pv : PyVal), toPy v = some pv → ofPy pv = som
     subst h; rename_i hc; simp at hc; subst hc; rfl
   | .dec c d, pv, h => by
     simp only [toPy] at h; split at h <;> simp at h
-    subst h; rename_i hc; simp at hc; subst hc; rfl
+    subst h; rename_i hc; simp at hc; obtain ⟨hc, _⟩ := hc; subst hc; rfl
   | .str c s, pv, h => by
     simp only [toPy] at h; split at h <;> simp at h
     subst h; rename_i hc; simp at hc; subst hc; rfl
